@@ -78,12 +78,12 @@ def plan(tier, seed):
     k = 8
     for i in range(k):
         specs.append({"part": "dates", "i": i, "k": k, "tier": tier, "seed": seed})
-    for i in range(4 if tier == "quick" else 16):
-        specs.append({"part": "composites", "stream": i, "n": 250 if tier == "quick" else 700, "tier": tier, "seed": seed})
+    for i in range(12 if tier == "quick" else 16):
+        specs.append({"part": "composites", "stream": i, "n": 400 if tier == "quick" else 700, "tier": tier, "seed": seed})
     pairs = [(li, si) for li in range(6) for si in range(li, 6)]
     for (li, si) in pairs:
-        specs.append({"part": "durations", "li": li, "si": si, "n": 300 if tier == "quick" else 16000, "tier": tier, "seed": seed})
-    specs.append({"part": "auto", "n": 400 if tier == "quick" else 20000, "tier": tier, "seed": seed})
+        specs.append({"part": "durations", "li": li, "si": si, "n": 1500 if tier == "quick" else 16000, "tier": tier, "seed": seed})
+    specs.append({"part": "auto", "n": 3000 if tier == "quick" else 20000, "tier": tier, "seed": seed})
     return specs
 
 
